@@ -9,7 +9,7 @@ os.makedirs(dst, exist_ok=True)
 shutil.copy(f"{src}/m{k}.diff", f"{dst}/patch.diff")
 shutil.copy(f"{src}/demo{k}.py", f"{dst}/demo.py")
 meta = json.load(open(f"{src}/meta{k}.json"))
-out = {"property": prop, "breaks": meta.get("what_it_breaks"), "needs_to_manifest": meta.get("needs_to_manifest"),
+out = {"property": prop[:3], "breaks": meta.get("what_it_breaks"), "needs_to_manifest": meta.get("needs_to_manifest"),
        "files_changed": meta.get("files_changed"), "origin": "independent sub-agent given only the property text and a scratch worktree",
        "confirmed": {"demo_on_clean_tree": "PASS (exit 0)", "demo_on_changed_tree": "FAIL (exit 1)",
                      "repository_suite_with_change": "851 passed; only the 10 directory-name failures/errors of the unchanged checkout "
